@@ -18,6 +18,7 @@
 //  2. per transaction id the TxMsgEvent stream is (New Remove)* [New]: a Remove
 //     is preceded by a New that no other Remove matched, and an id is not
 //     announced as added twice without a Remove in between.
+//
 // What happens to un-confirmed transactions after a reorganisation (restored /
 // lost and why) is counted, not demanded.
 package p23
@@ -63,6 +64,8 @@ type history struct {
 	evSeen    int
 	trail     []string
 	stopped   bool
+	bad       map[bc.Hash]bool // pooled and confirmed at the previous check (reported once, at the step that caused it)
+	mismatch  bool             // pool / notification-stream mismatch already reported for this case
 }
 
 func (h *history) name(id bc.Hash) string {
@@ -70,6 +73,15 @@ func (h *history) name(id bc.Hash) string {
 		return x.Name
 	}
 	return "?" + chainkit.HashShort(id)
+}
+
+func (h *history) txHex(id bc.Hash) string {
+	if x := h.u.ByID[id]; x != nil {
+		if b, err := x.Tx.MarshalText(); err == nil {
+			return string(b)
+		}
+	}
+	return ""
 }
 
 func (h *history) names(m map[bc.Hash]bool) string {
@@ -273,7 +285,8 @@ func (h *history) after(kind string, desc string) {
 	for _, e := range evs {
 		if key := h.pr.feed(e, fmt.Sprintf("step%d(%s)", len(h.trail), desc)); key != "" {
 			c.Violation(key, "the TxMsgEvent stream does not pair additions and removals of one transaction id",
-				h.witness(map[string]interface{}{"tx": h.name(e.ID), "tx_id": e.ID.String(), "events_of_tx": h.pr.log[e.ID], "after": desc}))
+				h.witness(map[string]interface{}{"tx": h.name(e.ID), "tx_id": e.ID.String(), "tx_hex": h.txHex(e.ID), "after": desc,
+					"expected": "per transaction id the notifications read (New Remove)* [New]", "observed_events_of_tx": h.pr.log[e.ID]}))
 		}
 		if e.Type == protocol.MsgNewTx {
 			c.Count("events_new", 1)
@@ -297,9 +310,17 @@ func (h *history) after(kind string, desc string) {
 		return ""
 	})
 	for id, b := range bad {
+		if h.bad[id] {
+			continue // still there: already reported at the step that caused it
+		}
 		c.Violation("pool-contains-confirmed-tx:after-"+kind, "a transaction of the pool is contained in a main-chain block",
-			h.witness(map[string]interface{}{"tx": h.name(id), "tx_id": id.String(), "confirmed_in": b, "best": blkName(best),
-				"pool": h.names(pool), "events_of_tx": h.pr.log[id], "after": desc}))
+			h.witness(map[string]interface{}{"tx": h.name(id), "tx_id": id.String(), "tx_hex": h.txHex(id), "confirmed_in": b, "best": blkName(best),
+				"expected":      "no transaction returned by TxPool.GetTransactions is contained in an ancestor of the best block",
+				"observed_pool": h.names(pool), "events_of_tx": h.pr.log[id], "after": desc}))
+	}
+	h.bad = map[bc.Hash]bool{}
+	for id := range bad {
+		h.bad[id] = true
 	}
 	// cross-check the tree walk with Chain.InMainChain for the blocks that contain pooled transactions
 	for _, id := range ids {
@@ -319,12 +340,12 @@ func (h *history) after(kind string, desc string) {
 			}
 		}
 	}
-	// the recorded stream must describe the pool, otherwise it cannot be trusted for (2)
-	if !sameSet(pool, h.pr.open) {
+	// the recorded stream must describe the pool, otherwise it cannot be trusted for (2).  The history
+	// goes on: an id that entered the pool unannounced yields remove-without-new when it leaves.
+	if !sameSet(pool, h.pr.open) && !h.mismatch {
+		h.mismatch = true
 		c.Inconclusive("case %d: after %q the ids announced as added and not removed [%s] differ from the pool [%s]: notifications were lost or never posted",
 			c.Index, desc, h.names(h.pr.open), h.names(pool))
-		h.stopped = true
-		return
 	}
 
 	// ---- observations about the step
@@ -430,7 +451,7 @@ func open(c *ev.Case, net *chainkit.Net, g *chainkit.Genesis, base string, tr *c
 	}
 	h := &history{c: c, net: net, tr: tr, u: u, nd: nd, rc: rc, pr: newPairing(),
 		blocksOf: map[bc.Hash][]*chainkit.Blk{}, delivered: map[bc.Hash]bool{tr.Root.Hash: true}, stored: map[bc.Hash]bool{tr.Root.Hash: true},
-		everMain: map[bc.Hash]bool{}, prevPool: map[bc.Hash]bool{}, prevBest: tr.Root, leftMain: map[bc.Hash]bool{}}
+		everMain: map[bc.Hash]bool{}, prevPool: map[bc.Hash]bool{}, prevBest: tr.Root, leftMain: map[bc.Hash]bool{}, bad: map[bc.Hash]bool{}}
 	for _, b := range tr.All[1:] {
 		h.register(b)
 	}
@@ -597,15 +618,17 @@ func TestC23(t *testing.T) {
 	r.Assume("transactions enter the pool only through Chain.ValidateTx (directly or by the restore loop of reorganizeChain), as in the node")
 	r.Assume("the recorded notification stream is complete when a sentinel posted through the same dispatcher after the call returned has been read; pool and stream are compared after every step and a difference is inconclusive")
 
-	r.Cases("scripted", r.N(3, 60)*len(scenarios), func(c *ev.Case) { runScript(c, net, g, base) })
-	r.Cases("histories", r.N(160, 9600), func(c *ev.Case) { runHistory(c, net, g, base) })
+	r.Cases("scripted", r.N(3, 40)*len(scenarios), func(c *ev.Case) { runScript(c, net, g, base) })
+	r.Cases("histories", r.N(160, 6000), func(c *ev.Case) { runHistory(c, net, g, base) })
 
-	r.Floor("histories_completed", int64(r.N(150, 9000)))
+	r.Floor("histories_completed", int64(r.N(150, 5800)))
+	r.Floor("scripted_histories_completed", int64(r.N(30, 420)))
 	r.Floor("states_checked", 3000)
 	r.Floor("reorganisations", 300)
 	r.Floor("reorganisations_back_to_earlier_branch", 60)
 	r.Floor("reorganisations_on_hash_tie", 20)
 	r.Floor("reorganisations_caused_by_vote", 3)
+	r.Floor("reorganisations_to_shorter_chain", 3)
 	r.Floor("multi_block_attach", 100)
 	r.Floor("removed_from_pool_on_confirmation", 200)
 	r.Floor("removed_from_pool_on_confirmation_by_reorg", 50)
@@ -613,8 +636,9 @@ func TestC23(t *testing.T) {
 	r.Floor("restored_to_pool_chained", 10)
 	r.Floor("not_restored:conflicts-with-new-main-chain", 10)
 	r.Floor("not_restored:dust", 3)
+	r.Floor("not_restored:time-range-expired", 3)
 	r.Floor("confirmed_on_both_branches", 50)
-	r.Floor("events_new", 800)
+	r.Floor("events_new", 500)
 	r.Floor("events_remove", 300)
 	r.Floor("submissions_after_confirmation", 100)
 	r.Floor("submissions_while_unconfirmed", 500)
